@@ -32,6 +32,11 @@ def parseHook : SExp → Option Hook
 def parseReq : SExp → Option Req
   | .list [.atom "T", .atom e, b, r] => do pure (.try_ (← Ev.parse? e) (← b.bool?) (← r.bool?))
   | .list [.atom "C", .atom e, b, r] => do pure (.control (← Ev.parse? e) (← b.bool?) (← r.bool?))
+  -- TR / CR: the same request with the REAL task-level body of core/environment/transition_*.go (the harness's
+  -- fake task manager answers the body's command per `bodyOk`); the model is the same as for T / C — that the
+  -- real bodies do nothing else to the state the model speaks about is pinned by `C10_transition_bodies_are_code`
+  | .list [.atom "TR", .atom e, b, r] => do pure (.try_ (← Ev.parse? e) (← b.bool?) (← r.bool?))
+  | .list [.atom "CR", .atom e, b, r] => do pure (.control (← Ev.parse? e) (← b.bool?) (← r.bool?))
   | .list [.atom "D", f, a, b] => do pure (.teardown (← f.bool?) (← a.bool?) (← b.bool?))
   | _ => none
 
